@@ -445,8 +445,15 @@ func reportViolation(prop *Property, tier string, seed int64, v violation) (stri
 		maxEvals = w.ShrinkEvals
 	}
 	evals := 0
+	// minimisation is a courtesy to the reader of the replay file: it is cut
+	// short on cases whose single execution is slow (the violation is reported
+	// either way, with whatever was reached)
+	shrinkDeadline := time.Now().Add(100 * time.Second)
 	if v.Class != "nondeterministic" {
 		fails := func(tp []uint32) bool {
+			if time.Now().After(shrinkDeadline) {
+				return false
+			}
 			cc := w.Gen(v.Index, ReplayTape(tp), tier)
 			oo := runCaseMaybeIsolated(prop, w, cc, isolated)
 			return oo.Class == v.Class
@@ -462,7 +469,7 @@ func reportViolation(prop *Property, tier string, seed int64, v violation) (stri
 		for round := 0; round < 200 && structEvals < budget; round++ {
 			improved := false
 			for _, mk := range w.Simplify(w, c) {
-				if structEvals >= budget {
+				if structEvals >= budget || time.Now().After(shrinkDeadline.Add(60*time.Second)) {
 					break
 				}
 				cand := mk()
